@@ -30,3 +30,14 @@ def run(chk, args):
                              60 if q else 500, 24)
     replay_bounds_behaviours(chk, "ANY4", {"N": 4, "cls": "ANY", "sing": "m1to1", "slacks": "0to3", "computers": {"sa", "sac", "sam"}, "reps": {0, 2}, "maxchg": 4},
                              30 if q else 300, 30)
+    # undo through the environment: step then unstep restores table, observation, reward, mask and counter exactly
+    from common_gym import ALL_GAPS, mc_gym, validate_gym_traces
+    mc_gym(chk, "undoSA3", N=3, gameset="SA", comps={"sa", "sac"}, reps={0}, gaps=ALL_GAPS, budgets="BudgetsNone", max_resets=1, max_ops=8,
+           invariants=["UndoRestores"])
+    mc_gym(chk, "undoSAM3", N=3, gameset="SAM", comps={"sam"}, reps={0, 1, 2}, gaps={"exploitability"}, budgets="BudgetsNone", max_resets=1, max_ops=8,
+           invariants=["UndoRestores"])
+    validate_gym_traces(chk, [
+        {"kind": "walk", "ns": "3,4", "count": 12 if q else 80, "classes": "superadditive,superadditive_cached,sam_apx_1,sam_apx_10"},
+        {"kind": "walk", "source": "family", "ns": "3,4", "count": 10 if q else 60,
+         "families": "noisy_factory,graph_random,xos,oxs,covg_fn_generator", "classes": "superadditive,superadditive_cached,sam_apx_1"},
+    ])
